@@ -32,7 +32,7 @@ type oracle struct {
 
 func (o *oracle) helper(st *pathint.State) *composer {
 	return &composer{c: o.c, src: o.src, st: st, it: o.it, atoms: map[bitdom.Atom]bitdom.Form{}, linMap: map[string]lin.Form{},
-		blobs: map[string]string{}, po: &pathint.Outcome{}, assumed: o.assumed, cache: map[string]cached{}, noFitFacts: true}
+		blobs: map[string]string{}, po: &pathint.Outcome{}, assumed: o.assumed, cache: map[string]cached{}, noFitFacts: true, guided: true}
 }
 
 // Byte implements pathint.FetchOracle.
@@ -42,7 +42,7 @@ func (o *oracle) Byte(st *pathint.State, it *pathint.Obj, off lin.Form, sym stri
 	}
 	k := o.helper(st)
 	if !off.IsConst() {
-		off = o.c.IP.SimplifyForm(off, st)
+		off = st.SolveEqualities(o.c.IP.SimplifyForm(off, st))
 	}
 	pos := off.Scale(8)
 	vec, whole, found := k.srcBits(pos, 8)
@@ -56,6 +56,9 @@ func (o *oracle) Byte(st *pathint.State, it *pathint.Obj, off lin.Form, sym stri
 			o.problems = append(o.problems, fmt.Sprintf("the parser reads byte %s, beyond the %s bits that were written [path: %s]", off, o.src.Total, clip(st.PathDesc(), 200)))
 		} else {
 			o.problems = append(o.problems, fmt.Sprintf("the parser reads byte %s: no emitted field starts there [path: %s]", off, clip(st.PathDesc(), 200)))
+		}
+		if composeDebug {
+			fmt.Printf("ORACLE miss src=%s off=%s total=%s srcfacts=%v\n", clip(o.src.Name, 3000), off, o.src.Total, o.src.St.Facts)
 		}
 		st.Abort()
 		return pathint.Val{}, false
@@ -87,10 +90,10 @@ func (o *oracle) Bytes(st *pathint.State, it *pathint.Obj, off, n lin.Form) (str
 	}
 	k := o.helper(st)
 	if !off.IsConst() {
-		off = o.c.IP.SimplifyForm(off, st)
+		off = st.SolveEqualities(o.c.IP.SimplifyForm(off, st))
 	}
 	if !n.IsConst() {
-		n = o.c.IP.SimplifyForm(n, st)
+		n = st.SolveEqualities(o.c.IP.SimplifyForm(n, st))
 	}
 	if ch := k.chunkAt(off.Scale(8)); ch != nil && ch.Kind == CBlob {
 		d := ch.Len.Sub(n)
@@ -140,6 +143,9 @@ func (c *Checker) Guided(src *Source, parser *ssa.Function, it string, root stri
 			st.Preds[k] = v
 		}
 		st.SetMem(it+".#cur", pathint.IntVal(lin.Const(opts.Start)))
+		for k, v := range opts.Preds {
+			st.Preds[k] = v
+		}
 		for name, f := range opts.Params {
 			if !st.BindParam(parser, name, pathint.IntVal(f)) {
 				res.Problems = append(res.Problems, "parser has no parameter "+name)
@@ -149,6 +155,9 @@ func (c *Checker) Guided(src *Source, parser *ssa.Function, it string, root stri
 		if src.TotalOK {
 			if div8(src.Total) {
 				st.Facts = append(st.Facts, lin.Fact{F: lin.Sym(ln).Sub(scaleDown8(src.Total))})
+				if opts.ExactLen {
+					st.Facts = append(st.Facts, lin.Fact{F: scaleDown8(src.Total).Sub(lin.Sym(ln))})
+				}
 			} else {
 				st.Facts = append(st.Facts, lin.Fact{F: lin.Sym(ln).Scale(8).Sub(src.Total)})
 			}
